@@ -494,7 +494,7 @@ try:
 except Exception as e:
     reproduced(f'repeated run without overwrite (options {{opts2}} after {{opts}}) raised {{type(e).__name__}}: {{e}}')
 after = listing()
-print(st1, st2, before, after, sep='\n')
+print(st1, st2, before, after)
 if st2 != 0 or after != before: reproduced(f'repeated run without overwrite (options {{opts2}} after a first run with {{opts}}): status {{st2}}, removed {{sorted(set(before) - set(after))}}, created {{sorted(set(after) - set(before))}}')
 not_reproduced()
 """
